@@ -1,6 +1,7 @@
 package sim
 
 import (
+	"bytes"
 	"fmt"
 	"math/big"
 	"sort"
@@ -19,6 +20,8 @@ import (
 type ProdGen struct {
 	E *Engine
 	G *Gen
+
+	nearN int
 }
 
 func (p *ProdGen) bodyOfLen(n int) []byte { return structured(n, byte(n)) }
@@ -153,7 +156,7 @@ func (p *ProdGen) Replacement(cls string) sdk.Msg {
 		newBody = newBody[:e.M.MaxBody]
 	}
 	switch cls {
-	case "own-message", "others-message", "unattested", "rotated-set", "user-132-as-deposit", "new-caller-shapes", "own-message-unchanged", "own-message-body-is-original":
+	case "own-message", "others-message", "near-sender-message", "unattested", "rotated-set", "user-132-as-deposit", "new-caller-shapes", "own-message-unchanged", "own-message-body-is-original":
 		em := p.emitted(false)
 		if em == nil {
 			return nil
@@ -167,6 +170,8 @@ func (p *ProdGen) Replacement(cls string) sdk.Msg {
 		switch cls {
 		case "others-message":
 			from = Acct((AcctIndex(from) + 1 + r.Intn(NAccounts-1)) % NAccounts)
+		case "near-sender-message":
+			from = Bech(p.nearAddress(em.Sender[12:32]))
 		case "unattested":
 			att = MutateAttestation(r, orig, att, e.EnabledPoolKeys(), int(e.M.Threshold))
 		case "rotated-set":
@@ -223,7 +228,7 @@ func (p *ProdGen) Replacement(cls string) sdk.Msg {
 			newCaller = [][]byte{nil, Structured32(1)[:31], append(Structured32(1), 0)}[r.Intn(3)]
 		}
 		return &ct.MsgReplaceMessage{From: from, OriginalMessage: orig, OriginalAttestation: att, NewMessageBody: newBody, NewDestinationCaller: newCaller}
-	case "own-deposit", "others-deposit", "deposit-via-replace-message", "deposit-unattested", "new-recipient-shapes", "own-deposit-same-recipient", "own-deposit-unchanged":
+	case "own-deposit", "others-deposit", "near-depositor-deposit", "deposit-via-replace-message", "deposit-unattested", "new-recipient-shapes", "own-deposit-same-recipient", "own-deposit-unchanged":
 		em := p.emitted(true)
 		if em == nil || em.Depositor == "" {
 			return nil
@@ -241,6 +246,8 @@ func (p *ProdGen) Replacement(cls string) sdk.Msg {
 		switch cls {
 		case "others-deposit":
 			from = Acct((AcctIndex(from) + 1 + r.Intn(NAccounts-1)) % NAccounts)
+		case "near-depositor-deposit":
+			from = Bech(p.nearAddress(addrBytes(from)))
 		case "deposit-via-replace-message":
 			return &ct.MsgReplaceMessage{From: from, OriginalMessage: orig, OriginalAttestation: att, NewMessageBody: newBody, NewDestinationCaller: newCaller}
 		case "deposit-unattested":
@@ -320,7 +327,75 @@ func (p *ProdGen) Replacement(cls string) sdk.Msg {
 
 var ReplacementClasses = []string{"attested-unissued-nonce", "own-message", "others-message", "unattested", "rotated-set", "user-132-as-deposit", "new-caller-shapes",
 	"own-deposit", "others-deposit", "deposit-via-replace-message", "deposit-unattested", "new-recipient-shapes", "foreign-domain", "forged-module-message",
-	"own-deposit-same-recipient", "own-deposit-unchanged", "own-message-unchanged", "attested-crafted-version", "own-message-body-is-original", "attested-crafted-burn-token"}
+	"own-deposit-same-recipient", "own-deposit-unchanged", "own-message-unchanged", "attested-crafted-version", "own-message-body-is-original", "attested-crafted-burn-token",
+	"near-sender-message", "near-depositor-deposit"}
+
+// nearAddress returns an address of the same length that differs from a in a small, structured way: one bit, the
+// same change in two bytes that sit 1/2/4/8/16 positions apart, a compensating +k/-k pair, two bytes exchanged, the
+// bytes reversed or complemented. Whoever it is, it is not the account a names. Kinds are cycled.
+func (p *ProdGen) nearAddress(a []byte) []byte {
+	b := append([]byte(nil), a...)
+	n := len(b)
+	if n == 0 {
+		return []byte{1}
+	}
+	p.nearN++
+	k := p.nearN
+	i := (k / 12) % n
+	mask := []byte{0x01, 0x80, 0xff, 0x5a}[(k/7)%4]
+	pair := func(d int) {
+		j := (i + d) % n
+		if j == i {
+			b[i] ^= mask
+			return
+		}
+		b[i] ^= mask
+		b[j] ^= mask
+	}
+	switch k % 12 {
+	case 0:
+		b[i] ^= mask
+	case 1:
+		pair(8)
+	case 2:
+		pair(4)
+	case 3:
+		pair(16)
+	case 4:
+		pair(1)
+	case 5:
+		pair(2)
+	case 6:
+		j := (i + 8) % n
+		if j != i {
+			b[i], b[j] = b[i]+mask, b[j]-mask
+		} else {
+			b[i] += mask
+		}
+	case 7:
+		j := (i + 1 + k%(n)) % n
+		b[i], b[j] = b[j], b[i]
+	case 8:
+		for l, r := 0, n-1; l < r; l, r = l+1, r-1 {
+			b[l], b[r] = b[r], b[l]
+		}
+	case 9:
+		for l := range b {
+			b[l] = ^b[l]
+		}
+	case 10:
+		// the same change in three lanes
+		for d := 0; d < n; d += 8 {
+			b[(i+d)%n] ^= mask
+		}
+	default:
+		b[n-1]++
+	}
+	if bytes.Equal(b, a) {
+		b[0] ^= 0x01
+	}
+	return b
+}
 
 // FailingProducer returns a producer message that must fail for the named reason.
 func (p *ProdGen) FailingProducer(kind string) []sdk.Msg {
